@@ -18,7 +18,7 @@
 (*   violation anything else                                                 *)
 (*   drift     (in addition to ok) observation # model-with-Devs             *)
 (***************************************************************************)
-EXTENDS IntSize, EnumImpl, Json, SequencesExt
+EXTENDS IntSize, EnumImpl, Units, Json, SequencesExt
 
 CONSTANTS ObsFile, Devs, Judge   \* Judge: which aspect is compared ("verdict", ...)
 
@@ -28,7 +28,13 @@ vars == <<l, tally>>
 Obs == ndJsonDeserialize(ObsFile)
 
 RefV(e, i)     == Valid(UnitEnv(e.unit), e.unit.schema, e.unit.docs[i], {}, "decl", NoLim)
-ImplV(e, i, D) == Valid(UnitEnv(e.unit), e.unit.schema, e.unit.docs[i], D, "decl", NoLim)
+\* units generated with --min-sized-ints (C15): the as-is prediction is the implementation-shaped model of the type
+\* selection and in-place bound removal (spec/IntSize.tla) inside the wrapper pipeline of spec/Units.tla
+SizedUnit(un) == "opts" \in DOMAIN un /\ "minSizedInts" \in DOMAIN un.opts /\ un.opts.minSizedInts /\ un.prop = "C15"
+ImplV(e, i, D) ==
+  IF SizedUnit(e.unit)
+  THEN B3(ImplPos(e.unit, e.unit.docs[i], LAMBDA v : ImplSizedAccepts(Leaf(e.unit), v, TRUE, D)))
+  ELSE Valid(UnitEnv(e.unit), e.unit.schema, e.unit.docs[i], D, "decl", NoLim)
 ObsV(r)        == IF r.err \/ r.panic THEN Rej ELSE Acc
 \* Which open deviations account for a verdict that the model with all of Devs predicts: those that
 \* are necessary (removing x changes the prediction) or sufficient (x alone departs from the
